@@ -162,17 +162,19 @@ structure ConnModel where
 replies to the probe (the actions before the handshake marker) — a function of this connection alone -/
 def modelBinary (_k : Nat) (acts : List Act) : Bool :=
   let ps := Spec.Net.probeScriptOf (acts.takeWhile (· != .hs))
-  (Net.classifyClient (Net.replyOf ps.delay ps.reply ps.closes Gen.clientProbeBuf)).binary
+  (Net.classifyClient (Net.clientReply ps.delay ps.first ps.closes)).binary
 
 def modelConn (sc : Script) (tr : Trace) (k : Nat) (acts : List Act) (w : Window) : Option ConnModel := do
   let da := Spec.Net.dataActs acts
   let ts ← timedScript tr k da w.con.t
+  -- the probe deadline was armed when the connection was new; lines 117 … 184 run just before `onconnect`
+  let tp := (Spec.Net.accTime tr k).getD w.con.t
   if modelBinary k acts then
-    let o := Net.runT Net.repaired Spec.Net.margin (Net.CState.init w.con.t) ts {}
+    let o := Net.runT Net.repaired Spec.Net.margin (Net.CState.start Net.repaired tp w.con.t) ts {}
     let d ← Spec.Net.decodeAllM sc tr true (Net.deliveries o.effs)
     pure ⟨d, o.stop, o.tight⟩
   else
-    let r := Net.runA w.con.t [] ts {} ({}, [])
+    let r := Net.runA (Net.AState.start Net.repaired tp w.con.t) ts ({}, [])
     let d ← Spec.Net.decodeAllM sc tr false r.2
     pure ⟨d, r.1.stop, false⟩
 
@@ -282,8 +284,10 @@ def compareC12 (client : Bool) (sc : Script) (tr : Trace) : Bool × Bool × Stri
     let tProbe := Spec.Net.timeOf (fun e => match e with | .rx 0 _ => true | _ => false) tr
     let tReply := Spec.Net.timeOf (fun e => match e with | .tx 0 _ => true | .cl 0 => true | _ => false) tr
     let delay := match tProbe, tReply with | some a, some b => b - a | _, _ => ps.delay
-    let tight := (ps.reply.isSome || ps.closes) && decide (absDiff delay Net.frameTimeout < Spec.Net.margin)
-    let reply := Net.replyOf delay ps.reply ps.closes (if client then Gen.clientProbeBuf else Gen.detectorProbeBuf)
+    let timeout := if client then Net.probeTimeout else Net.detectorTimeout
+    let tight := (ps.reply.isSome || ps.closes) && decide (absDiff delay timeout < Spec.Net.margin)
+    -- the single probe `Read` returns the panel's first segment
+    let reply := if client then Net.clientReply delay ps.first ps.closes else Net.detectorReply delay ps.first ps.closes
     let v := if client then Net.classifyClient reply else Net.classifyDetector reply
     let want := Net.probeBytes [8, 1] ++ v.writes.flatten
     let rx := Spec.Net.rxBytes 0 tr
